@@ -121,6 +121,9 @@ pub fn run_real(w: &Arc<Workload>, spec: &SchedSpec, keep_events: bool) -> RealR
         max_in_flight: out.stats.max_in_flight,
     };
     let verdict = match out.result {
+        // the simulated device gave up (call budget): whatever came back is an artefact of the
+        // simulator's own limit, not of the code — inconclusive, like the other budgets
+        Ok(_) if faults.budget > 0 => Err(finding("budget", "device call budget exhausted")),
         Ok(v) => {
             if let Some(b) = hs.bound_violation {
                 Err(finding("vm-bound", b))
